@@ -70,7 +70,7 @@ type DDB struct {
 	Lag     bool
 	Faults  bool // inject throttling / lost acknowledgements
 	Stats   map[string]int
-	FaultOf   map[int]string // task id -> fault injected into that task's current call
+	FaultOf map[int]string // task id -> fault injected into that task's current call
 }
 
 // NewDDB creates the fake with the given tables.
